@@ -13,13 +13,22 @@ pub struct Io {
     pub fail_at: Option<usize>,
     pub log: Vec<J>,
     pub flushed: usize,
+    /// do not log calls (used while allocation is being measured)
+    pub quiet: bool,
+    /// writer: report exhaustion as Ok(0) (like `&mut [u8]`) instead of an error
+    pub zero_on_full: bool,
 }
 impl Io {
     pub fn reader(data: &[u8], sched: Vec<usize>, fail_at: Option<usize>) -> Io {
-        Io { data: data.to_vec(), pos: 0, sched, calls: 0, fail_at, log: vec![], flushed: 0 }
+        Io { data: data.to_vec(), pos: 0, sched, calls: 0, fail_at, log: vec![], flushed: 0, quiet: false, zero_on_full: false }
     }
     pub fn writer(sched: Vec<usize>, fail_at: Option<usize>) -> Io {
-        Io { data: vec![], pos: 0, sched, calls: 0, fail_at, log: vec![], flushed: 0 }
+        Io { data: vec![], pos: 0, sched, calls: 0, fail_at, log: vec![], flushed: 0, quiet: false, zero_on_full: false }
+    }
+    fn note(&mut self, j: J) {
+        if !self.quiet {
+            self.log.push(j);
+        }
     }
     fn piece(&mut self, want: usize) -> usize {
         let k = if self.sched.is_empty() { want } else { self.sched[self.calls % self.sched.len()].max(1) };
@@ -28,7 +37,7 @@ impl Io {
     }
     pub fn do_read(&mut self, buf: &mut [u8]) -> Result<usize, ()> {
         if buf.is_empty() {
-            self.log.push(json!(["r", 0, 0]));
+            self.note(json!(["r", 0, 0]));
             return Ok(0);
         }
         let avail = self.data.len() - self.pos;
@@ -38,19 +47,19 @@ impl Io {
                 if f > self.pos {
                     k = f - self.pos; // deliver the bytes before the fault first
                 } else {
-                    self.log.push(json!(["r", buf.len(), -1]));
+                    self.note(json!(["r", buf.len(), -1]));
                     return Err(());
                 }
             }
         }
         buf[..k].copy_from_slice(&self.data[self.pos..self.pos + k]);
         self.pos += k;
-        self.log.push(json!(["r", buf.len(), k]));
+        self.note(json!(["r", buf.len(), k]));
         Ok(k)
     }
     pub fn do_write(&mut self, buf: &[u8]) -> Result<usize, ()> {
         if buf.is_empty() {
-            self.log.push(json!(["w", 0, 0]));
+            self.note(json!(["w", 0, 0]));
             return Ok(0);
         }
         let mut k = self.piece(buf.len());
@@ -58,19 +67,22 @@ impl Io {
             if self.data.len() + k > f {
                 if f > self.data.len() {
                     k = f - self.data.len();
+                } else if self.zero_on_full {
+                    self.note(json!(["w", buf.len(), 0]));
+                    return Ok(0);
                 } else {
-                    self.log.push(json!(["w", buf.len(), -1]));
+                    self.note(json!(["w", buf.len(), -1]));
                     return Err(());
                 }
             }
         }
         self.data.extend_from_slice(&buf[..k]);
-        self.log.push(json!(["w", buf.len(), k]));
+        self.note(json!(["w", buf.len(), k]));
         Ok(k)
     }
     pub fn do_flush(&mut self) -> Result<(), ()> {
         self.flushed += 1;
-        self.log.push(json!(["f"]));
+        self.note(json!(["f"]));
         Ok(())
     }
 }
@@ -88,6 +100,25 @@ impl std::io::Write for Io {
     }
 }
 
+/// an owned handle on a shared transport (the reader travels by value through from_io / from_eio)
+#[derive(Clone)]
+pub struct Shared(pub std::rc::Rc<std::cell::RefCell<Io>>);
+impl Shared {
+    pub fn new(io: Io) -> Shared {
+        Shared(std::rc::Rc::new(std::cell::RefCell::new(io)))
+    }
+    pub fn pos(&self) -> usize {
+        self.0.borrow().pos
+    }
+}
+impl std::io::Read for Shared {
+    fn read(&mut self, buf: &mut [u8]) -> std::io::Result<usize> {
+        self.0.borrow_mut().do_read(buf).map_err(|_| std::io::Error::new(std::io::ErrorKind::Other, "injected"))
+    }
+}
+#[derive(Clone)]
+pub struct SharedEio(pub Shared);
+
 /// the same transport behind the embedded-io traits
 pub struct Eio<'a>(pub &'a mut Io);
 
@@ -103,6 +134,14 @@ mod e6 {
     }
     impl eio6::ErrorType for Eio<'_> {
         type Error = Injected;
+    }
+    impl eio6::ErrorType for SharedEio {
+        type Error = Injected;
+    }
+    impl eio6::Read for SharedEio {
+        fn read(&mut self, buf: &mut [u8]) -> Result<usize, Injected> {
+            self.0 .0.borrow_mut().do_read(buf).map_err(|_| Injected)
+        }
     }
     impl eio6::Read for Eio<'_> {
         fn read(&mut self, buf: &mut [u8]) -> Result<usize, Injected> {
@@ -130,6 +169,14 @@ mod e4 {
     }
     impl eio4::Io for Eio<'_> {
         type Error = Injected;
+    }
+    impl eio4::Io for SharedEio {
+        type Error = Injected;
+    }
+    impl eio4::blocking::Read for SharedEio {
+        fn read(&mut self, buf: &mut [u8]) -> Result<usize, Injected> {
+            self.0 .0.borrow_mut().do_read(buf).map_err(|_| Injected)
+        }
     }
     impl eio4::blocking::Read for Eio<'_> {
         fn read(&mut self, buf: &mut [u8]) -> Result<usize, Injected> {
